@@ -201,6 +201,16 @@ class Dim:
                     if d not in (0, None) and not empty:
                         self.problems.append(("returns a value of dimension S^%d to the caller (must be de-scaled, S^0): %s"
                                               % (d, canon(rv)[:60]), s))
+                    # the result of a D wrapper lies on the integer grid divided by the scale: handing the caller's own doubles back
+                    # (a parameter returned as it came in) skips the rounding to the precision and whatever the integer operation drops
+                    r1 = r0
+                    while r1.get("kind") in ("CXXConstructExpr",) and len(kids(r1)) == 1:
+                        r1 = strip(kids(r1)[0])
+                    if r1.get("kind") == "DeclRefExpr" and r1.get("referencedDecl", {}).get("kind") == "ParmVarDecl" and \
+                            D_GEOM.search(qt(r1) or "") :
+                        self.problems.append(("returns its argument '%s' unchanged: the result of the floating-point API is the integer operation's "
+                                              "result on the scaled and rounded input, divided by the scale - the caller's doubles have not been through the "
+                                              "integer grid" % r1["referencedDecl"].get("name"), s))
             else:
                 s0 = strip(s)
                 if s0.get("kind") == "BinaryOperator" and s0.get("opcode") == "=":
